@@ -45,7 +45,7 @@ PROPS = {
                      'after every step every key of the universe is looked up through contains/peek/peek_entry in borrowed and owned form and compared with the pointer walk (flag api_map)'],
     ),
     'C05': dict(
-        comps=['order', 'api_order', 'panic_order'],
+        comps=['order', 'api_order', 'panic_order'], bodies=['touch_ptr', 'set_head', 'EntryPtr::', 'Entry::unhinge', 'lru_ptr', 'mru_ptr', 'move_to_table'],
         theorems=['C05_order', 'C05_observers', 'C05_peeks', 'C05_touch_pointer', 'C05_remove_pointer', 'C05_insert_pointer', 'C05_realloc_pointer', 'C05_touch_refines', 'C05_remove_refines', 'C05_lru_is_head'],
         assumptions=['iteration forward and reversed, keys(), values(), peek_lru/peek_mru and Debug are cross-checked against the pointer walk of the hook after every step (flag api_order)'],
     ),
@@ -55,7 +55,7 @@ PROPS = {
         assumptions=['object identity = token carried by the instrumented key/value types; Drop logs the token'],
     ),
     'C07': dict(
-        comps=['mon_c07', 'addr_stable', 'bsim', 'brefine', 'api_map', 'api_len', 'api_order', ('res', ['iter'])], corr_only=['bsim', 'brefine'],
+        comps=['mon_c07', 'addr_stable', 'bsim', 'brefine', 'api_map', 'api_len', 'api_order', ('res', ['iter'])], corr_only=['bsim', 'brefine'], bodies='all',
         theorems=['C07_unhinge', 'C07_set_head', 'C07_touch', 'C07_realloc', 'C07_traversal', 'C07_b_touch', 'C07_b_remove', 'C07_b_insert_new', 'C07_b_moves', 'C07_public_ops_refine', 'C07_reachable_coherent', 'C07_monitor_sound'],
         assumptions=['Layer B faults on access to unallocated/freed nodes and on reading moved-out or uninitialised payloads; aliasing-model UB is outside the model (DESIGN.md 6, 9.1)',
                      'the monitor ri_check (proved sound: C07_monitor_sound) is evaluated on the pointer graph the dangling-safe hook walker reports after every step; bucket addresses of surviving entries must be stable unless the table was rebuilt', 'bsim: the extracted pointer-level public operation stepB (B/StepB.v, proved to refine stepA: C07_public_ops_refine) is run on the observed pointer graph before each step, with the bucket addresses hashbrown chose, and must produce exactly the links and recorded sizes observed after it; brefine: its result, events and abstract final state must be the ones Layer A computed for that step'],
@@ -79,7 +79,7 @@ PROPS = {
     ),
     'C12': dict(
         comps=['res', 'drops', 'keyset', 'order', 'ents', 'sizes', 'cur', 'max', 'mon_c06'],
-        ops=ITERS,
+        ops=ITERS, bodies=['Iter::', 'TakingIterator::', 'Drain::new', 'lru_ptr', 'mru_ptr'],
         comps_any=['api_order'],
         theorems=['C12_split', 'C12_fused', 'C12_iter', 'C12_drain', 'C12_into_iter', 'C12_cursor', 'C12_taking', 'C12_taking_items'],
     ),
@@ -113,7 +113,7 @@ PROPS = {
     ),
     'C17': dict(
         comps=['drop_once', ('mon_c06', ITERS), ('res', ITERS), ('drops', ITERS), ('ents', ['drain']), ('cur', ['drain']), ('keyset', ['drain']),
-               ('mon_c07', ['drain']), ('mon_c02', ['drain']), ('mon_c01', ['drain']), ('bsim', ITERS), ('brefine', ITERS)], corr_only=['brefine'],
+               ('mon_c07', ['drain']), ('mon_c02', ['drain']), ('mon_c01', ['drain']), ('bsim', ITERS), ('brefine', ITERS)], corr_only=['brefine'], bodies=['TakingIterator::', 'Drain::new'],
         theorems=['C17_taking_run', 'C17_drain_forget', 'C17_into_iter_forget', 'C17_into_iter_pointer_level', 'C17_drop_pointer_level'],
         assumptions=['mem::forget of Drain / IntoIter / IntoKeys / IntoValues after every generated prefix of next/next_back calls, followed by further use and drop of the cache; borrowing iterators own nothing, forgetting them is a no-op'],
     ),
